@@ -117,11 +117,9 @@ Qed.
 (* ------------------------------------------------------------------------------------- *)
 (** * BoundSheet8 *)
 
-Lemma land_hs : forall v hi, v <= 2 -> hi < 4 -> N.land (v + 64 * hi) 63 = v.
+Lemma land_hs : forall v hi, v <= 2 -> N.land (v + 4 * hi) 3 = v.
 Proof.
-  intros v hi Hv Hh.
-  assert (C : (v = 0 \/ v = 1 \/ v = 2) /\ (hi = 0 \/ hi = 1 \/ hi = 2 \/ hi = 3)) by lia.
-  destruct C as [ [ -> | [ -> | -> ] ] [ -> | [ -> | [ -> | -> ] ] ] ]; reflexivity.
+  intros v hi Hv. change 3 with (N.ones 2). rewrite N.land_ones. change (2 ^ 2) with 4. lia.
 Qed.
 
 Lemma len_ge6 : forall p a b (x : bytes), (len (le32 p ++ [a; b] ++ x) <? 6) = false.
@@ -130,7 +128,7 @@ Proof.
 Qed.
 
 Lemma sheet_metadata_enc : forall s ch, ls_legal s ch = true ->
-  xls_sheet_metadata (boundsheet_body (ls_pos ch) (xls_vis_code (m_vis s) + 64 * ls_hi ch)
+  xls_sheet_metadata (boundsheet_body (ls_pos ch) (xls_vis_code (m_vis s) + 4 * ls_hi ch)
                                       (xls_kind_code (m_kind s)) (ls_wide ch) (units_of (m_name s)))
   = Ok (ls_pos ch, s).
 Proof.
@@ -156,7 +154,7 @@ Proof.
 Qed.
 
 Lemma len_boundsheet : forall s ch, ls_legal s ch = true ->
-  len (boundsheet_body (ls_pos ch) (xls_vis_code (m_vis s) + 64 * ls_hi ch)
+  len (boundsheet_body (ls_pos ch) (xls_vis_code (m_vis s) + 4 * ls_hi ch)
                        (xls_kind_code (m_kind s)) (ls_wide ch) (units_of (m_name s))) <= 65535.
 Proof.
   intros s ch H. unfold ls_legal in H.
